@@ -221,6 +221,8 @@ def variants(fp, cls):
                 add("negativeWeight", "extra route s->neg->t with flow -0.5, weight_type=int", neg_small, {"negroute", "wtype"})
         add("missingWeight", "flow(a,b) missing", lambda kw: kw[g]["a"]["b"].pop("flow"), {"w:ab"})
         add("badWeightType", "weight_type=str", lambda kw: kw.update(weight_type=str), {"wtype"})
+        # ... a subclass of int is not one of the two documented types either
+        add("badWeightType", "weight_type=bool", lambda kw: kw.update(weight_type=bool), {"wtype"})
     if cls in FLOW_DECOMP:
         add("nonConservingFlow", "flow(s,a) = 7", lambda kw: kw[g]["s"]["a"].__setitem__("flow", 7), {"w:sa"})
         if cls in DAG:
